@@ -103,6 +103,11 @@ def run(F, R):
         if inner:
             wrappers[name] = inner
     r5_failure_window(F, R, drivers)
+    # R9: R5 takes finish_init as the point where the device goes live: begin_init must not already set DRIVER_OK and
+    # no transport may override either (status sequence shared with C08.H0/H1)
+    from .C08 import h0 as _h0, h1_begin_finish as _h1
+    _h0(F, RuleProxy(R, {'H0': 'R9'}))
+    _h1(F, RuleProxy(R, {'H1': 'R9'}))
     # R6: a driver-owned buffer that is still posted is not released: buffers parked in driver state leave it only after
     # the completion was consumed (shared with C04.P8)
     from .C04 import p8_release_after_completion
